@@ -79,3 +79,31 @@ def large_batch(R, H, N, seed, eos=3):
     rb[1:R + 1, 2:N + 2] = torch.tensor(refs).t()
     hb[1:H + 1, 2:N + 2] = torch.tensor(hyps).t()
     return refs, hyps, rb[1:R + 1, 2:N + 2], hb[1:H + 1, 2:N + 2]
+
+
+import contextlib
+
+
+@contextlib.contextmanager
+def global_state(name):
+    """Global interpreter / torch state that must not change any result."""
+    if name == "default":
+        yield
+    elif name == "float64-default":
+        old = torch.get_default_dtype()
+        torch.set_default_dtype(torch.float64)
+        try:
+            yield
+        finally:
+            torch.set_default_dtype(old)
+    elif name == "inference-mode":
+        with torch.inference_mode():
+            yield
+    elif name == "no-grad":
+        with torch.no_grad():
+            yield
+    else:
+        raise ValueError(name)
+
+
+GLOBAL_STATES = ("default", "float64-default", "inference-mode", "no-grad")
